@@ -140,6 +140,7 @@ int main(int argc, char** argv) {
                 if (!(s0 > 0)) continue;
                 double m1 = s1 / s0; for (uint32_t i = 0; i < n; i++) s2 += proj[i] * ((double)ps->q(i) - m1) * ((double)ps->q(i) - m1);
                 double sd = std::sqrt(s2 / s0), ext = (double)ps->getMax(0) - ps->getMin(0);
+                if (!(s2 / s0 > 0)) { M.ev("moments_skipped_no_width_defined"); continue; }     // (negative lobe outweighs: second moment not positive, no width to compare)
                 double tolm = 5e-4 * sd + 32 * n * EPS * ext, tols = 1e-3 * sd + 32 * n * EPS * ext;
                 M.ev("moments_right_after_renormalisation_checked");
                 bool ok1 = M.within("moment.after_norm.mean_over_tol", std::fabs((double)mean[b] - m1) / tolm, 1.0);
@@ -201,6 +202,7 @@ int main(int argc, char** argv) {
             double m1 = s1 / s0;
             for (uint32_t i = 0; i < n; i++) { double u = (ax == 0) ? ps->q(i) : ps->p(i); s2 += proj[i] * (u - m1) * (u - m1); }
             double sd = std::sqrt(s2 / s0);
+            if (!(s2 / s0 > 0)) { M.ev("moments_skipped_no_width_defined"); continue; }         // (negative lobe outweighs: no width defined for this projection)
             M.ev("moments_checked");
             if (flavour != 2) {
                 // smooth, interior data: rectangle and Simpson sums agree far below the tolerance
